@@ -182,9 +182,16 @@ macro_rules! impl_conversion_to_float {
                     } else if top_bit < $lb {
                         Err(ConversionError::LossOfPrecision)
                     } else {
+                        // strip the trailing zero bits: the numerator itself may not fit the
+                        // mantissa type although the value is representable (e.g. 2^31 for f32)
+                        let num_zeros = value.0.numerator.trailing_zeros().unwrap();
+                        let man = value.0.numerator >> num_zeros;
+                        if man.bit_len() > <$t>::MANTISSA_DIGITS as usize {
+                            return Err(ConversionError::LossOfPrecision);
+                        }
                         match <$t>::encode(
-                            value.0.numerator.try_into().unwrap(),
-                            -(den_bits as i16),
+                            man.try_into().unwrap(),
+                            (num_zeros as isize - den_bits as isize) as i16,
                         ) {
                             Exact(v) => Ok(v),
                             Inexact(v, _) => {
